@@ -205,6 +205,9 @@ def check_def(ctx, c):
             ctx.violation(f"package generated from a WSDL does not import: {type(ex).__name__}: {ex}", {**info, "files": {k: v[:3000] for k, v in gen.files.items()}})
             return
         src = "\n".join(gen.files.values())
+        # ONE headers mapping of the caller's, handed to every call of every operation of the definition (the usual way
+        # to carry credentials): no call may leave anything of its own in it
+        caller_headers = {"x-user": "1"}
         for i, o in enumerate(d["ops"]):
             svc_spec, env_spec = c["services"][i], c["envelopes"][i]
             ctx.case(("wsdl", text, o["name"]))
@@ -237,7 +240,7 @@ def check_def(ctx, c):
                 swapped = dict(got, kids=list(reversed(got["kids"])))
                 tags = ["F26"] if o["header"] and swapped == want else []
                 ctx.violation(f"request envelope of {o['name']}: {got}, the WSDL prescribes {want}", {**oinfo, "payload": payload, "finding_tags": tags})
-            exchange(ctx, d, o, svc, xctx, req, oinfo)
+            exchange(ctx, d, o, svc, xctx, req, oinfo, caller_headers)
     finally:
         gen.cleanup()
 
@@ -262,7 +265,8 @@ def response_xml(d, o, fault=False):
     return f'<e:Envelope xmlns:e="{SOAPENV}"><e:Body>{body}</e:Body></e:Envelope>'.encode()
 
 
-def exchange(ctx, d, o, svc, xctx, req, oinfo):
+def exchange(ctx, d, o, svc, xctx, req, oinfo, caller_headers=None):
+    caller_headers = {"x-user": "1"} if caller_headers is None else caller_headers
     supported = d["transport"] == "http://schemas.xmlsoap.org/soap/http"
     for fault in (False, True, "nodetail") + (("second",) if o["fault"] and o.get("nfaults", 1) == 2 else ()):
         resp = response_xml(d, o, fault)
@@ -272,7 +276,7 @@ def exchange(ctx, d, o, svc, xctx, req, oinfo):
         client.parser = XmlParser(context=xctx)
         client.serializer = XmlSerializer(context=xctx)
         try:
-            result = client.send(req, headers={"x-user": "1"})
+            result = client.send(req, headers=caller_headers)
         except ClientValueError as ex:
             if supported:
                 ctx.violation(f"Client.send raised ClientValueError for a supported transport: {ex}", oinfo)
@@ -282,6 +286,10 @@ def exchange(ctx, d, o, svc, xctx, req, oinfo):
         except Exception as ex:  # noqa: BLE001
             ctx.violation(f"Client.send raised {type(ex).__name__}: {ex}", {**oinfo, "response": resp.decode()})
             continue
+        if caller_headers != {"x-user": "1"}:
+            ctx.violation(f"Client.send changed the caller's headers mapping: {caller_headers}", oinfo)
+            caller_headers.clear()
+            caller_headers["x-user"] = "1"
         if not supported:
             ctx.violation("Client.send accepted an unsupported binding transport", oinfo)
             continue
